@@ -29,7 +29,8 @@ def run_scenarios(
     for sc in scenarios:
         level = sc.get("level", 0)
         mk = lambda sc=sc: make_world(sc)  # noqa: E731
-        res = explore(mk, level=level, max_states=sc.get("max_states", 60000))
+        res = explore(mk, level=level, max_states=sc.get("max_states", 60000), stop_prefix=prefix,
+                      time_budget=sc.get("time_budget", 300.0))
         acc.states += res.states
         acc.transitions += res.transitions
         acc.paths += res.executions
